@@ -30,7 +30,7 @@ def run(tier):
     rep.assumptions = ['stream sockets over AF_UNIX socketpair; one loop thread; callbacks follow the documented return-code contract '
                        '(stop the task before returning a non-CONTINUE code unless TP_F_DISPATCH)']
     b = _build()
-    core.run_sharded(rep, b, tier, hang_s=120)
+    core.run_sharded(rep, b, tier, hang_s=120, extra_args=(['--payload', '8'] if tier == 'thorough' else []))
     b2 = _build_b()
     core.run_sharded(rep, b2, tier, hang_s=120)
     n = int(rep.total('run'))
@@ -38,7 +38,7 @@ def run(tier):
     rep.extra['transitions'] = n
     rep.extra['traces_validated_against_impl'] = n
     rep.extra['explanation'] = 'states = (configuration, history) pairs executed on the real loop; every one is a trace of the implementation'
-    r1 = core.make_replayer(lambda cfg: b, tier)
+    r1 = core.make_replayer(lambda cfg: b, tier, extra_args=(['--payload', '8'] if tier == 'thorough' else []))
     r2 = core.make_replayer(lambda cfg: b2, tier)
     rep.finish(lambda target, clause, idx, config: (r2 if target in ('send_task_shortwrite', 'pkt_rcvr_task') else r1)(target, clause, idx, config))
 
